@@ -23,6 +23,12 @@
   * "… and are all triples whenever the budget covers them":    `C15_callsite` (`Perm (Dbal.allTriples n)`), `C15_triples`
   * the call site never unranks an index ≥ C(n,k) (where the function would repeat the last
     combination): `C15_callsite_population` (k = 3, the modelled call site), `C15_callsite_general_k` (all k)
+  * corollaries made explicit (Props/C15Regress.lean): n = k gives (k-1, …, 0) at index 0 for every k: `C15_unrank_n_eq_k`,
+    `fullComb_isComb`; the tuple does not depend on n (any m ≤ n with idx < C(m,k)): `C15_independent_of_n`; a guard
+    `k <= 0 or n < k` is harmless on valid requests: `C15_guard_lt_harmless`
+  * Regression (not a clause): `C15_S7_guard_counterexample` (S7-C15: guard `n <= k` returns () at (0,1,1) and (0,3,3))
+  * Regression (not a clause): `C15_S5_S6_tightened_counterexample` (S5-C15 bisection `idx <= C(mid,k)` / S6-C15 stale binomial table:
+    the walk starts from n' with idx = C(n',k); witness idx = 10, n' = 5, k = 2 repeats (4,3))
   * harness-only: that `rng.choice(N, size, replace=False)` returns `size` pairwise distinct elements of
     `range(N)` (numpy's generator law: hypothesis `ChoiceContract`, re-observed on every recorded draw);
     that numpy fancy indexing gathers exactly at `idx1/idx2/idx3` (container fidelity: observed through
